@@ -71,7 +71,7 @@ PROPS = {
                      'Cqos.C18.c18_unfixed_counterexample', 'Cqos.C18.c18_suitable_imp', 'Cqos.C18.c18_suitable_mono',
                      'Cqos.C18.c18_pick_min', 'Cqos.C18.c18_pick_max', 'Cqos.C18.c18_accepted',
                      'Cqos.C18.c18_accepted_fair', 'Cqos.C18.c18_accepted_rate'],
-        'runs': [{'cmd': 'pure', 'args': ['-family', 'c18']}],
+        'runs': [{'cmd': 'pure', 'args': ['-family', 'c18']}, {'cmd': 'blackbox', 'args': ['-scenario', 'utils']}],
         'monitor_prefix': ['C18'],
         'level': 'proof',
         'level_text': ('Lean theorems for every priority list, ANY divider and every q/max: genCombinations = the non-empty '
@@ -300,9 +300,9 @@ PROPS = {
         'assumptions': [],
     },
     'C15': {
-        'lean_targets': ['Cqos.Props.C15', 'Cqos.Facts.CtorsPrio'],
+        'lean_targets': ['Cqos.Props.C15', 'Cqos.Props.C15s', 'Cqos.Facts.CtorsPrio'],
         'facts': True,
-        'theorems': ['Cqos.C15.safeDivide_err_iff', 'Cqos.C15.round_division_err_iff', 'Cqos.C15.c15_failsafe_step',
+        'theorems': ['Cqos.SimpleV1.einv_step', 'Cqos.SimpleV1.c15_simple_error_reported', 'Cqos.SimpleV1.c15_simple_unfixed_error_lost', 'Cqos.C15.safeDivide_err_iff', 'Cqos.C15.round_division_err_iff', 'Cqos.C15.c15_failsafe_step',
                      'Cqos.C15.c15_failsafe_run', 'Cqos.C15.c15_calc_fault', 'Cqos.C15.c15_recalc_fault',
                      'Cqos.C15.c15_base_fault_iff', 'Cqos.C15.c15_drain_progress', 'Cqos.C15.wf_step', 'Cqos.C15.wf_run',
                      'Cqos.C15.c15_args_v2', 'Cqos.C15.c15_args_v1', 'Cqos.C15.c15_args_sublist_calc',
@@ -434,7 +434,7 @@ PROPS = {
                      'Cqos.C06.pacc_sstep', 'Cqos.C06.lift_run', 'Cqos.C06.c06_simple_every_item_handled'],
         'runs': [{'cmd': 'stepper', 'args': ['-family', 'single']}, {'cmd': 'stepper', 'args': ['-family', 'mixed']},
                  {'cmd': 'stepper', 'args': ['-family', 'terminate']},
-                 {'cmd': 'blackbox', 'args': ['-scenario', 'alone']}],
+                 {'cmd': 'blackbox', 'args': ['-scenario', 'alone,dynamic']}],
         'monitor_prefix': ['C06'],
         'level': 'proof',
         'level_text': ('Lean theorems (safety-shaped progress facts, every action list): a v2 discipline never waits for a release while '
